@@ -1,6 +1,7 @@
 package build
 
 import (
+	"bytes"
 	"encoding/binary"
 	"errors"
 	"fmt"
@@ -133,8 +134,8 @@ type Machine struct {
 	root    *node
 	orphans []*node
 	Stats   struct {
-		Executed, Skipped int
-		Moves, Copies, Overwrites, Caps int
+		Executed, Skipped                        int
+		Moves, Copies, Overwrites, Caps, Reopens int
 	}
 	// CheckEvery, if set, is called after every mutating op.
 	OnStep func(m *Machine) error
@@ -327,6 +328,33 @@ func copyInto(dst, src *node) {
 func (m *Machine) Exec(op Op) error {
 	live := m.live()
 	switch op.K {
+	case "reopen":
+		// The message goes over the wire and the program continues on the received copy: what Unmarshal / Decode hand
+		// out is a message like any other and may be extended and serialised again.  (Objects not attached to the root
+		// do not travel; capabilities do not either, so programs that used them skip this.)
+		if len(m.orphans) > 0 || m.Stats.Caps > 0 || m.root == nil {
+			return errSkip
+		}
+		b, err := m.Msg.Marshal()
+		if err != nil {
+			return &APIError{"Marshal", err}
+		}
+		var msg *capnp.Message
+		if op.A%2 == 0 {
+			msg, err = capnp.Unmarshal(append([]byte(nil), b...))
+		} else {
+			msg, err = capnp.NewDecoder(bytes.NewReader(b)).Decode()
+		}
+		if err != nil {
+			return &APIError{"Unmarshal/Decode of the message's own Marshal output", err}
+		}
+		msg.TraverseLimit = 1 << 50
+		seg, err := msg.Segment(0)
+		if err != nil {
+			return &APIError{"Segment(0)", err}
+		}
+		m.Msg, m.Seg = msg, seg
+		m.Stats.Reopens++
 	case "newStruct":
 		dw, pc := op.A%4, op.B%4
 		dsz := dw * 8
@@ -778,7 +806,7 @@ func GenProgram(t *rapid.T, maxOps int) Program {
 	}
 	n := rapid.IntRange(1, maxOps).Draw(t, "nops")
 	kinds := []string{"newStruct", "newStruct", "newList", "newPtrList", "newComp", "newComp", "newText", "newData",
-		"setData", "setData", "setElem", "setPtr", "setPtr", "setPtr", "setPtr", "setStruct", "copyFrom", "setRoot", "attachAll", "check"}
+		"setData", "setData", "setElem", "setPtr", "setPtr", "setPtr", "setPtr", "setStruct", "copyFrom", "setRoot", "attachAll", "check", "reopen"}
 	for i := 0; i < n; i++ {
 		k := rapid.SampledFrom(kinds).Draw(t, "op")
 		op := Op{K: k}
@@ -813,8 +841,12 @@ func GenProgram(t *rapid.T, maxOps int) Program {
 			}
 		case "setStruct", "copyFrom":
 			op.A, op.B, op.C = small("a"), small("b"), small("c")
-		case "setRoot":
+		case "setRoot", "reopen":
 			op.A = small("a")
+		}
+		if k == "reopen" {
+			// attach everything first so that the whole tree travels
+			p.Ops = append(p.Ops, Op{K: "attachAll"})
 		}
 		p.Ops = append(p.Ops, op)
 	}
